@@ -21,6 +21,22 @@ pub struct FromMetaOptions {
 
 impl FromMetaOptions {
     pub fn new(di: &syn::DeriveInput) -> Result<Self> {
+        // Only newtype structs can be derived among tuple structs; there is no
+        // code generation for any other number of unnamed fields.
+        if let syn::Data::Struct(syn::DataStruct {
+            fields: syn::Fields::Unnamed(fields),
+            ..
+        }) = &di.data
+        {
+            if fields.unnamed.len() != 1 {
+                return Err(Error::custom(format!(
+                    "FromMeta cannot be derived for a tuple struct with {} fields; only newtype structs are supported",
+                    fields.unnamed.len()
+                ))
+                .with_span(&di.ident));
+            }
+        }
+
         (FromMetaOptions {
             base: Core::start(di)?,
             from_word: None,
@@ -106,6 +122,15 @@ impl ParseData for FromMetaOptions {
                 }
             }
             Data::Enum(ref data) => {
+                for variant in data.iter().filter(|v| !v.is_supported_by_from_meta()) {
+                    errors.push(
+                        Error::custom(
+                            "FromMeta cannot be derived for a tuple variant unless it has exactly one field",
+                        )
+                        .with_span(&variant.ident),
+                    );
+                }
+
                 let word_variants: Vec<_> = data
                     .iter()
                     .filter_map(|variant| variant.word.as_ref())
